@@ -10,6 +10,7 @@ import (
 	"encoding/base64"
 	"fmt"
 	"math/big"
+	"sort"
 	"strings"
 	"unicode"
 
@@ -77,6 +78,21 @@ func jwsIndepVerify(pub any, alg string, input, sig []byte) bool {
 		return ecdsa.Verify(k, digestFor(h, input), new(big.Int).SetBytes(sig[:size]), new(big.Int).SetBytes(sig[size:]))
 	case ed25519.PublicKey:
 		return alg == "EdDSA" && ed25519.Verify(k, input, sig)
+	}
+	return false
+}
+
+// jwsPlanVerify: the Lean model's plan (Model/JwsVerify.lean `verifyPlan`: which primitive, which hash, the signature in the primitive's
+// format) for alg / key kind / signature, carried out with the crypto oracle the COSE verifier uses (sigVerify) over input
+func jwsPlanVerify(c *Ctx, pub any, algHex string, input []byte, sigHex string) bool {
+	km := keyMat(pub)
+	plan := c.Call(M{"op": "jws.verifyPlan", "alg": algHex, "key": km, "sig": sigHex})
+	switch plan["plan"] {
+	case "primitive":
+		return sigVerify(plan["scheme"].(string), crypto.Hash(int(num(plan["hash"]))), km, input, unhx(plan["sig"].(string)))
+	case "opaque":
+		// a key kind the certificate view does not describe: the model leaves it to go-jose; compared against the standard library alone
+		return jwsIndepVerify(pub, string(unhx(algHex)), input, unhx(sigHex))
 	}
 	return false
 }
@@ -379,7 +395,7 @@ func init() {
 			mv["nocerts"] = len(modelCerts) == 0
 			if pub != nil {
 				verifiable, _ := model["verifiable"].(bool)
-				mv["verify"] = verifiable && jwsIndepVerify(pub, string(unhx(model["alg"].(string))), unhx(model["signingInput"].(string)), unhx(model["signature"].(string)))
+				mv["verify"] = verifiable && jwsPlanVerify(c, pub, model["alg"].(string), unhx(model["signingInput"].(string)), model["signature"].(string))
 			}
 		}
 		impl := guard(func() M {
@@ -1282,6 +1298,76 @@ func init() {
 			}
 		}},
 	}
+	// every key kind x every algorithm name: the signature is made the way the NAMED algorithm prescribes with whatever key is at hand
+	// (ES384 with a P-256 key gives r, s padded to 48 bytes and SHA-384; ES256 with a P-384 key cannot fit and is mis-sized), plus
+	// mis-sized, DER-encoded, truncated and zero signatures; go-jose's Verify against the Lean plan carried out by the crypto oracle
+	jwsStreams = append(jwsStreams, Stream{"jws.verifyPlan", func(c *Ctx) {
+		r := c.R
+		algs := []string{"RS256", "RS384", "RS512", "PS256", "PS384", "PS512", "ES256", "ES384", "ES512", "EdDSA", "none", "HS256", "", "es256", "RS1", "ES256K", "EdDSA "}
+		n := c.N(3, 60)
+		for round := 0; round < n; round++ {
+			keys := []*KeyPair{genKeyPair(r, algRS256), genKeyPairOnCurve(r, algES256, 1, false), genKeyPairOnCurve(r, algES384, 2, false), genKeyPairOnCurve(r, algES512, 3, false), genKeyPair(r, algEdDSA)}
+			for _, k := range keys {
+				for _, alg := range algs {
+					hdr := []byte(`{"alg":` + jwsQ(alg) + `}`)
+					payload := []byte(`{"n":` + fmt.Sprint(r.Intn(1000)) + `}`)
+					input := []byte(b64u(hdr) + "." + b64u(payload))
+					sigs := map[string][]byte{"empty": {}, "zeros64": make([]byte, 64), "random": r.Bytes(64)}
+					h := crypto.Hash(0)
+					switch {
+					case strings.HasSuffix(alg, "256"):
+						h = crypto.SHA256
+					case strings.HasSuffix(alg, "384"):
+						h = crypto.SHA384
+					case strings.HasSuffix(alg, "512"):
+						h = crypto.SHA512
+					}
+					size := map[string]int{"ES256": 32, "ES384": 48, "ES512": 66}[alg]
+					switch k.Kind {
+					case "rsa":
+						if h != 0 {
+							p1, _ := rsa.SignPKCS1v15(rand.Reader, k.RSA, h, digestFor(h, input))
+							p2, _ := rsa.SignPSS(rand.Reader, k.RSA, h, digestFor(h, input), &rsa.PSSOptions{SaltLength: pick(r, []int{rsa.PSSSaltLengthEqualsHash, rsa.PSSSaltLengthAuto, 0, 20})})
+							sigs["pkcs1"], sigs["pss"] = p1, p2
+							if len(p1) > 1 {
+								sigs["pkcs1-short"] = p1[1:]
+							}
+						}
+					case "ec":
+						hh := h
+						if hh == 0 {
+							hh = crypto.SHA256
+						}
+						rr, ss, _ := ecdsa.Sign(rand.Reader, k.EC, digestFor(hh, input))
+						ksize := (k.EC.Curve.Params().BitSize + 7) / 8
+						sigs["raw-keysize"] = append(fixed(rr, ksize), fixed(ss, ksize)...)
+						if size >= ksize {
+							sigs["raw-algsize"] = append(fixed(rr, size), fixed(ss, size)...)
+						}
+						der, _ := ecdsa.SignASN1(rand.Reader, k.EC, digestFor(hh, input))
+						sigs["der"] = der
+						sigs["raw-plus1"] = append(append([]byte{}, sigs["raw-keysize"]...), 0)
+						sigs["r-zero"] = append(make([]byte, ksize), fixed(ss, ksize)...)
+					case "ed":
+						sigs["ed"] = ed25519.Sign(k.Ed, input)
+					}
+					names := make([]string, 0, len(sigs))
+					for name := range sigs {
+						names = append(names, name)
+					}
+					sort.Strings(names)
+					for _, name := range names {
+						raw := string(input) + "." + b64u(sigs[name])
+						der, err := x509.MarshalPKIXPublicKey(k.Public())
+						if err != nil {
+							panic(err)
+						}
+						executors["jws.parse"](c, "jws.verifyPlan", M{"op": "jws.parse", "raw": hx([]byte(raw)), "_dev": "plan/" + k.Kind + fmt.Sprint(k.Crv) + "/" + alg + "/" + name, "_pub": hx(der)})
+					}
+				}
+			}
+		}
+	}})
 	// the same model serves the android-safetynet statement (C03, C04, C05) and the metadata BLOB (C15)
 	register("C04", jwsStreams...)
 	register("C15", jwsStreams...)
